@@ -159,9 +159,23 @@ def _byte_hazard():
     return out
 
 
+def _addr_hazard():
+    """Register-register address forms (`lea dst, [a + b]`) with r12 / r13 as base or index: r12
+    shares its low bits with rsp (a SIB byte is mandatory), r13 with rbp (mod = 00 means disp32, so
+    a zero disp8 must be emitted).  Deterministic: a fixed property of the x86-64 encoding."""
+    out = []
+    for a, b in ((1, 4), (4, 1), (0, 4), (4, 0), (1, 0), (0, 1), (1, 7), (7, 1)):
+        for d in (("T", 6), ("T", 12), ("M", 1)):
+            live = 0xffff if (a + b) % 2 else (1 << a) | (1 << b)
+            out.append(("u64", ("Add", d, ("T", a), ("T", b)), live))
+        out.append(("u8", ("Add", ("T", 6), ("T", a), ("T", b)), (1 << a) | (1 << b)))
+        out.append(("u32", ("Sub", ("T", 7), ("T", a), ("T", b)), 0xffff))
+    return out
+
+
 def _instances(tier, seed):
     rnd = random.Random(seed)
-    inst = list(MUST) + _byte_hazard()
+    inst = list(MUST) + _byte_hazard() + _addr_hazard()
     if tier == "quick":
         inst += _candidates("u64", rnd, 1)
         inst += _candidates("u8", rnd, 1)
